@@ -186,8 +186,51 @@ func targetCode(s string) int {
 	return map[string]int{"a": 0, "b": 1, "c": 2}[s]
 }
 
+// h32Reference: the tables of the function the model computes when hash32's text is not of the recognised shape but
+// gotrans translates it (Bob Jenkins' lookup2 hash as official Soy's fingerprint uses it: golden-ratio start values,
+// three little-endian word loads per 12-byte block, the 27-assignment mix with shifts 13 8 13 12 16 5 3 10 15, the
+// tail bytes 11..1 added to c (skipping its low byte), b and a).  Whether today's hash32 computes this function is then
+// decided by Proofs/SourceTieMsgLoops.v hash32_matches_source, which is proved against the translated body.
+func h32Reference() (initA, initB int64, lets, mixSrc []string, loopLoads, tailLoads []h32Load) {
+	initA, initB = 0x9e3779b9, 0x9e3779b9
+	shifts := []struct {
+		k   int
+		shl bool
+	}{{13, false}, {8, true}, {13, false}, {12, false}, {16, true}, {5, false}, {3, false}, {10, true}, {15, false}}
+	vars := []string{"a", "b", "c"}
+	for i, sh := range shifts {
+		x, y, z := vars[i%3], vars[(i+1)%3], vars[(i+2)%3]
+		lets = append(lets, fmt.Sprintf("let %s := sub32 %s %s in", x, x, y), fmt.Sprintf("let %s := sub32 %s %s in", x, x, z))
+		mixSrc = append(mixSrc, fmt.Sprintf("%s -= %s", x, y), fmt.Sprintf("%s -= %s", x, z))
+		if sh.shl {
+			lets = append(lets, fmt.Sprintf("let %s := N.lxor %s (shl32 %s %d) in", x, x, z, sh.k))
+			mixSrc = append(mixSrc, fmt.Sprintf("%s ^= (%s << %d)", x, z, sh.k))
+		} else {
+			lets = append(lets, fmt.Sprintf("let %s := N.lxor %s (N.shiftr %s %d) in", x, x, z, sh.k))
+			mixSrc = append(mixSrc, fmt.Sprintf("%s ^= (%s >> %d)", x, z, sh.k))
+		}
+	}
+	for w, t := range vars {
+		l := h32Load{Target: t}
+		for j := 0; j < 4; j++ {
+			l.Terms = append(l.Terms, h32Term{Off: int64(4*w + j), Shift: int64(8 * j)})
+		}
+		loopLoads = append(loopLoads, l)
+	}
+	for label := int64(11); label >= 1; label-- {
+		off := label - 1
+		l := h32Load{Case: label, Target: vars[off/4], Terms: []h32Term{{Off: off, Shift: 8 * (off % 4)}}}
+		if off >= 8 {
+			l.Terms[0].Shift = 8 * (off%4 + 1) // the low byte of c is taken by the length
+		}
+		tailLoads = append(tailLoads, l)
+	}
+	return
+}
+
 func (g *gen) msgidHash() {
 	const rel = "soymsg/id.go"
+	problems0 := len(g.problem)
 	fd := g.funcDecl(rel, "hash32")
 	var initA, initB int64 = -1, -1
 	var loopLoads, tailLoads []h32Load
@@ -347,6 +390,14 @@ func (g *gen) msgidHash() {
 		}
 		lets = append(lets, l)
 		mixSrc = append(mixSrc, g.src(s))
+	}
+	if len(g.problem) > problems0 && fd != nil &&
+		g.gotransCovers("soymsg", "hash32", &gtCfg{fuel: map[int]string{1: "limit - start + 1"}}) {
+		// not the textual shape this generator reads, but gotrans translates the function: the model is built from the
+		// reference tables and hash32_matches_source (proved against the translation) is what ties it to the source
+		g.problem = g.problem[:problems0]
+		initA, initB, lets, mixSrc, loopLoads, tailLoads = h32Reference()
+		g.p("(* hash32 is not written in the shape generator 40 reads: REFERENCE tables; Proofs/SourceTieMsgLoops.v decides *)\n")
 	}
 
 	g.p("(* soymsg/id.go hash32 *)\n")
@@ -702,6 +753,9 @@ func (g *gen) msgidPlaceholder() {
 	wantBody := "{ ident = leadingOrTrailing_.ReplaceAllString(ident, \"\") ident = consecutive_.ReplaceAllString(ident, \"${1}_${2}\") ident = wordBoundary1.ReplaceAllString(ident, \"${1}_${2}\") ident = wordBoundary2.ReplaceAllString(ident, \"${1}_${2}\") ident = wordBoundary3.ReplaceAllString(ident, \"${1}_${2}\") return strings.ToUpper(ident) }"
 	if fd := g.funcDecl(rel, "toUpperUnderscore"); fd == nil {
 		g.fail("toUpperUnderscore: function not found")
+	} else if g.gotransCovers("soymsg", "toUpperUnderscore", nil) {
+		// tied by gotrans: to_upper_underscore_matches_source (Proofs/SourceTieMsgLoops.v) is proved against today's body
+		// (the order of the replacements and their templates), whatever its text
 	} else if got := g.src(fd.Body); got != wantBody {
 		g.fail("toUpperUnderscore: body changed (the order of the replacements and their templates are modelled by hand): %s", got)
 	}
